@@ -1,9 +1,13 @@
-"""Apply a seeded change from seeded/<name>/patch.diff to /repo, run its demo and the named checks, undo it.
-usage: seedtest.py <seed-name> [check ids...]   (default check = the property the seed is filed under)"""
+"""Judge a seeded change: copy /repo and /verif to a scratch directory outside both, apply seeded/<name>/patch.diff to
+the copy, run the demo on the clean tree and on the changed copy, run the named checks of the copied framework against
+the changed copy (REX_REPO), remove the scratch directory.
+usage: seedtest.py <seed-name> [check ids...] [--skip-demo] [--tier quick|thorough]"""
 import json
 import os
+import shutil
 import subprocess
 import sys
+import tempfile
 import time
 
 VERIF = os.path.dirname(os.path.dirname(os.path.abspath(__file__)))
@@ -15,30 +19,34 @@ def sh(cmd, **kw):
 
 
 def main():
-    name = sys.argv[1]
+    args = [a for a in sys.argv[1:] if not a.startswith("--")]
+    name = args[0]
     d = os.path.join(VERIF, "seeded", name)
-    checks = sys.argv[2:] or [name.split("_")[0]]
-    env = dict(os.environ, JAX_PLATFORMS="cpu", REX_REPO=REPO)
+    checks = args[1:] or [name.split("_")[0]]
+    scratch = tempfile.mkdtemp(prefix=f"seed_{name}_", dir="/var/tmp")
     out = dict(seed=name, checks={})
-    assert sh(f"git -C {REPO} status --porcelain").stdout.strip() == "", "/repo not clean"
-    if "--skip-demo" not in sys.argv:
-        r = subprocess.run(["/venv/bin/python", os.path.join(d, "demo.py")], env=env, capture_output=True, text=True, timeout=900)
-        out["demo_clean_exit"] = r.returncode
-    r = sh(f"git -C {REPO} apply {d}/patch.diff")
-    assert r.returncode == 0, r.stderr
     try:
+        sh(f"rsync -a --exclude .git --exclude replays --exclude __pycache__ {VERIF}/ {scratch}/verif/")
+        sh(f"rsync -a --exclude .git --exclude __pycache__ {REPO}/ {scratch}/repo/")
+        r = sh(f"cd {scratch}/repo && git apply {d}/patch.diff")
+        assert r.returncode == 0, r.stderr
+        env = dict(os.environ, JAX_PLATFORMS="cpu")
         if "--skip-demo" not in sys.argv:
-            r = subprocess.run(["/venv/bin/python", os.path.join(d, "demo.py")], env=env, capture_output=True, text=True, timeout=900)
+            r = subprocess.run(["/venv/bin/python", os.path.join(d, "demo.py")], env=dict(env, REX_REPO=REPO), capture_output=True, text=True, timeout=1200)
+            out["demo_clean_exit"] = r.returncode
+            r = subprocess.run(["/venv/bin/python", os.path.join(d, "demo.py")], env=dict(env, REX_REPO=f"{scratch}/repo"), capture_output=True, text=True, timeout=1200)
             out["demo_changed_exit"] = r.returncode
-        for c in [c for c in checks if not c.startswith("--")]:
+        tier = "thorough" if "--thorough" in sys.argv else "quick"
+        for c in checks:
             t0 = time.time()
-            r = subprocess.run([os.path.join(VERIF, "check"), c], cwd=VERIF, env=dict(os.environ, VERIF_STDERR="/dev/null"), capture_output=True, text=True, timeout=3600)
+            r = subprocess.run([f"{scratch}/verif/check", c, "--tier", tier], cwd=f"{scratch}/verif", env=dict(os.environ, VERIF_STDERR="/dev/null", REX_REPO=f"{scratch}/repo"),
+                               capture_output=True, text=True, timeout=7200)
             lines = [l for l in r.stdout.splitlines() if l.startswith(("VIOLATION", "OK ", "KNOWN", "HARNESS", "  failing", "  broken", "  corr"))]
-            out["checks"][c] = dict(exit=r.returncode, wall=round(time.time() - t0), lines=lines[:8])
+            out["checks"][c] = dict(exit=r.returncode, wall=round(time.time() - t0), lines=[l[:400] for l in lines[:8]])
     finally:
-        sh(f"git -C {REPO} checkout -- .")
-        sh(f"rm -rf {VERIF}/replays")
+        shutil.rmtree(scratch, ignore_errors=True)
     print(json.dumps(out, indent=1))
+    return out
 
 
 if __name__ == "__main__":
